@@ -32,6 +32,7 @@ type coreCase struct {
 	OpName   *string                `json:"operationName,omitempty"`
 	Kind     string                 `json:"kind"`
 	Features []string               `json:"features,omitempty"`
+	Pinned   bool                   `json:"pinned,omitempty"` // this exact input is answered correctly by the unchanged tree: a failure on it is never a known finding
 	Sibling  string                 `json:"sibling,omitempty"` // non-empty: the document also holds `query Sibling {…}` and OpName selects the main operation
 	// Fed, when present, replaces regeneration from FedSeed: failure records and corpus files
 	// carry the federation itself, so they stay valid when the generators change.
@@ -39,7 +40,8 @@ type coreCase struct {
 }
 
 type fedDump struct {
-	Spec *fed.Spec `json:"spec"`
+	Spec *fed.Spec `json:"spec,omitempty"`
+	SDLs []string  `json:"sdls,omitempty"` // hand-written service schemas (instead of Spec)
 	Data *fed.Data `json:"data"`
 }
 
@@ -49,6 +51,20 @@ type coreFed struct {
 }
 
 func buildCoreFedCase(cs coreCase) (*coreFed, error) {
+	if cs.Fed != nil && len(cs.Fed.SDLs) > 0 && cs.Fed.Data != nil {
+		if cs.Fed.Data.Counters == nil {
+			cs.Fed.Data.Counters = map[string]int{}
+		}
+		f, err := fed.FromSDL(cs.Fed.SDLs, cs.Fed.Data)
+		if err != nil {
+			return nil, err
+		}
+		mr, err := f.Merged()
+		if err != nil {
+			return nil, fmt.Errorf("merge: %w", err)
+		}
+		return &coreFed{F: f, Merged: mr}, nil
+	}
 	if cs.Fed != nil && cs.Fed.Spec != nil && cs.Fed.Data != nil {
 		if cs.Fed.Data.Counters == nil {
 			cs.Fed.Data.Counters = map[string]int{}
@@ -68,8 +84,77 @@ func buildCoreFedCase(cs coreCase) (*coreFed, error) {
 
 // withDump returns the case with its federation embedded (for failure records).
 func withDump(cs coreCase, cf *coreFed) coreCase {
+	if cs.Fed != nil && len(cs.Fed.SDLs) > 0 {
+		return cs
+	}
 	cs.Fed = &fedDump{Spec: cf.F.Spec, Data: cf.F.Data}
 	return cs
+}
+
+// ---------------------------------------------------------------------------------------------
+// hand-written federation: an INTERFACE whose fields are declared by different services (the
+// generator's interfaces have one home service). Every query of spreadInterfaceQueries is
+// answered correctly by the unchanged tree, so these cases are PINNED: any failure on them is
+// reported whatever class the operation's features fall in.
+
+var spreadSDLs = []string{
+	`interface Node { id: ID! }
+interface Media { id: ID! title: String! }
+type Book implements Node & Media { id: ID! title: String! pages: Int }
+type Film implements Node & Media { id: ID! title: String! }
+type Query { feed: [Media!]! top: Media node(id: ID!): Node }
+`,
+	`interface Node { id: ID! }
+interface Media { id: ID! cover(size: Int): String! rating: Int }
+type Book implements Node & Media { id: ID! cover(size: Int): String! rating: Int }
+type Film implements Node & Media { id: ID! cover(size: Int): String! rating: Int runtime: Int }
+type Query { node(id: ID!): Node }
+`}
+
+func spreadData() *fed.Data {
+	sc := func(v interface{}) fed.Val { return fed.Val{Kind: "scalar", Scalar: v} }
+	ref := func(id string) fed.Val { return fed.Val{Kind: "ref", Ref: id} }
+	d := &fed.Data{Entities: map[string]*fed.Object{}, Roots: map[string]map[string]fed.Val{"Query": {}}, Counters: map[string]int{}}
+	add := func(id, typ string, fields map[string]fed.Val) {
+		d.Entities[id] = &fed.Object{Type: typ, ID: id, Fields: fields}
+		d.Order = append(d.Order, id)
+	}
+	add("b1", "Book", map[string]fed.Val{"title": sc("Dune"), "pages": sc(412), "cover": sc("c-b1"), "rating": sc(5)})
+	add("f1", "Film", map[string]fed.Val{"title": sc("Alien"), "cover": sc("c-f1"), "rating": sc(4), "runtime": sc(117)})
+	add("b2", "Book", map[string]fed.Val{"title": sc("Emma"), "pages": sc(300), "cover": sc("c-b2"), "rating": fed.Null()})
+	d.Roots["Query"]["feed"] = fed.Val{Kind: "list", List: []fed.Val{ref("b1"), ref("f1"), ref("b2")}}
+	d.Roots["Query"]["top"] = ref("f1")
+	return d
+}
+
+var spreadInterfaceQueries = []string{
+	`{ feed { title } }`,
+	`{ feed { cover } }`,
+	`{ feed { title cover(size: 1) } }`,
+	`{ feed { small: cover(size: 1) big: cover(size: 2) } }`,
+	`{ feed { title small: cover(size: 1) big: cover(size: 2) rating } }`,
+	`{ top { small: cover(size: 1) big: cover(size: 2) r: rating t: title } }`,
+	`query($s: Int){ feed { a: cover(size: $s) b: cover(size: 2) } }`,
+	`query($s: Int = 9){ top { a: cover(size: $s) b: cover c: cover(size: 3) } }`,
+	`{ feed { id title rating } }`,
+	`{ top { rating x: rating } }`,
+	`{ feed { __typename title cover } }`,
+	`{ feed { title ... on Book { pages } } }`,
+	// not pinned: `{ feed { ... on Film { a: cover(size: 1) … runtime } title } }` fails on the unchanged
+	// tree (finding C01-abstract-type-selection: `Cannot query field "node" on type "Book"`)
+}
+
+func spreadInterfaceCases() []coreCase {
+	var out []coreCase
+	for _, q := range spreadInterfaceQueries {
+		cs := coreCase{Query: q, Kind: "query", Pinned: true, Features: []string{"directed:interface spread over services"},
+			Fed: &fedDump{SDLs: spreadSDLs, Data: spreadData()}}
+		if strings.Contains(q, "$s: Int)") {
+			cs.Vars = map[string]interface{}{"s": 7}
+		}
+		out = append(out, cs)
+	}
+	return out
 }
 
 // loadCorpus reads the pinned cases of a property from $VERIF_DIR/corpus/<prop>/*.json.
